@@ -212,6 +212,9 @@ fn emit_fields(cat: &Catalogue, fields: &[FieldDef], indent: &str, owner: &str, 
         if f.error_b {
             attrs.push("error = SimErrB".to_string());
         }
+        if f.needs_predicate {
+            attrs.push("needs_predicate".to_string());
+        }
         let _ = write!(out, "{}", layout(&attrs, &format!("{owner}.{}", f.ident), indent));
         let _ = writeln!(out, "{indent}pub {}: {},", f.ident, cat.rust_ty(&f.ty));
     }
